@@ -36,6 +36,37 @@ PROPS = {
     },
 }
 
+
+
+def _L(level, quick, thorough, extra_rule="", extra_assume=(), wall=(900, 7200), shrink=90):
+    return {
+        "engine": "L",
+        "level": level,
+        "rule": RULE_L + extra_rule,
+        "assumptions": ASSUME_COMMON + list(extra_assume),
+        "wall_cap": {"quick": wall[0], "thorough": wall[1]},
+        "shrink_budget": shrink,
+        "batches": {"quick": quick, "thorough": thorough},
+    }
+
+
+def _two(nq, fq, nt, ft, fault_kinds=None):
+    fcfg = {"faults": True}
+    if fault_kinds:
+        fcfg["fault_kinds"] = fault_kinds
+    q = [{"name": "nofault", "runs": nq, "cfg": {"faults": False}, "faults": False}]
+    t = [{"name": "nofault", "runs": nt, "cfg": {"faults": False}, "faults": False}]
+    if fq:
+        q.append({"name": "faults", "runs": fq, "cfg": fcfg, "faults": True})
+        t.append({"name": "faults", "runs": ft, "cfg": fcfg, "faults": True})
+    return q, t
+
+
+PROPS["C08"] = _L("exploration", *_two(1600, 1000, 60000, 40000), extra_assume=["float references are evaluated in float64; bounds assume torch CPU kernels accumulate half precision in float32 (measured, see DESIGN 3.4)"])
+PROPS["C09"] = _L("exploration", *_two(1600, 1000, 60000, 40000))
+PROPS["C10"] = _L("exploration", *_two(1400, 800, 50000, 30000), extra_assume=["a file is durable once the save call returned; torn or corrupted files are out of scope (no checksum in either format)"])
+PROPS["C11"] = _L("exploration", *_two(2400, 0, 90000, 0))
+PROPS["C12"] = _L("exploration", *_two(1600, 1000, 60000, 40000), extra_assume=["nested calibration contexts are not judged by the EMA law (the property speaks of successive contexts)"])
 NOT_APPLICABLE = [
     {"property_id": "C01", "reason": "pure function of (tensor, scale, qtype, axis): no state, schedule, fault or I/O for a simulator to vary; deterministic simulation does not apply (exhaustive value enumeration / SMT would)"},
     {"property_id": "C02", "reason": "pure function of (tensor, bits, axis, group size); no history, fault or interleaving in it"},
@@ -54,3 +85,44 @@ MANIFEST_CHECKS = {
         "technique": "deterministic simulation with fault injection: seeded history search + enumerated fault positions, replayable plans",
     },
 }
+
+_TECH = "deterministic simulation with fault injection: seeded lifecycle-history search, reference model checked after every step, replayable minimised plans"
+MANIFEST_CHECKS.update(
+    {
+        "C08": {
+            "text": "Seeded search over module-tree architectures x lifecycle histories (fresh, calibrating, streamlined, partially frozen, frozen, reloaded, restarted, after weight updates, first forward after a fault-aborted one). Structural diff of the tree once per quantize(); at every forward every quantized module's observed output is compared with a float64 twin on the input it actually received, under an analytic per-element bound. Sampling of architectures and histories, not proof.",
+            "design_ref": "DESIGN.md section 5 (C08), 3.4 (twin)",
+            "note": "Trusted: torch float64 functional ops as reference; quanto's own quantizers for inputs/weights (C01/C02 are not judged here); rounding bound constants documented in DESIGN 3.4.",
+            "technique": _TECH,
+        },
+        "C09": {
+            "text": "Seeded search over interleavings of forward / calibrate / freeze / partial freeze / re-freeze / deepcopy / to(cpu) / save / load / weight update, with freeze aborted by injected faults. Output memo compared bit for bit across every output-preserving op; frozen weights compared bit for bit with the dynamic path; idempotence digests; payload geometry and state_dict byte totals.",
+            "design_ref": "DESIGN.md section 5 (C09)",
+            "note": "Bit equality only. Device moves are cpu->cpu (no accelerator in the sandbox).",
+            "technique": _TECH,
+        },
+        "C10": {
+            "text": "Seeded save/load histories through three serializers onto a simulated disk (real files in a scratch directory, in-memory pickles), with restart (only the file survives), key-order permutation, failed-then-retried writes, repeated cycles and three kinds of load target; state_dict equality, field equality and bit-identical outputs against the pre-save memo.",
+            "design_ref": "DESIGN.md section 5 (C10)",
+            "note": "Bit equality only. Restart is an in-process rebuild with a different init seed. Torn/corrupted files are out of scope.",
+            "technique": _TECH,
+        },
+        "C11": {
+            "text": "Seeded histories of training steps, in-place weight updates, forwards and freezes; gradients reaching each quantized module's input, weight and bias compared with an independently built float64 straight-through graph (per module, on the upstream gradient that actually arrived) under an analytic bound; frozen weights/scales must stay gradient-free; freshness of the dynamic quantized weight after every update.",
+            "design_ref": "DESIGN.md section 5 (C11)",
+            "note": "Trusted: torch autograd in float64 as reference. No fault batch (nothing in the property speaks about faults).",
+            "technique": _TECH,
+        },
+        "C12": {
+            "text": "EMA reference model stepped batch by batch through arbitrary calibration histories (several successive contexts, momentum menu, float or quantized module inputs, streamline on/off, batches aborted by injected faults, save/restart/load between contexts, magnitudes that make a scale land exactly on 1); every module's input/output scale checked against the law after every batch, with the old-or-new relaxation after an aborted batch.",
+            "design_ref": "DESIGN.md section 5 (C12)",
+            "note": "Trusted: float64 twin for the raw output absmax. Nested contexts are not judged.",
+            "technique": _TECH,
+        },
+    }
+)
+
+from .registry_k import MANIFEST_CHECKS_K, PROPS_K  # noqa: E402
+
+PROPS.update(PROPS_K)
+MANIFEST_CHECKS.update(MANIFEST_CHECKS_K)
